@@ -31,7 +31,7 @@ func histCheck(t *testing.T, spec *GenSpec, o Oracles, rule string, nontrivial f
 func TestC01(t *testing.T) {
 	spec := &GenSpec{Prop: "C01", Backings: []string{"mem", "store", "store", "ll"}, MaxOps: 40,
 		Holds: true, Reopen: true, BigBatches: true}
-	histCheck(t, spec, Oracles{CollEveryStep: true},
+	histCheck(t, spec, oraclesFor[spec.Prop],
 		"rapid-generated program = config x history of {batch, merger cycle(plain|mergeAll|idle), hold persister at gate, release, drain+reopen}; after every op a fresh Collection.Snapshot is compared with the reference map (Get of every key of the universe + full iteration). Non-trivial: at some read moment a key's newest operation sits in a different section (top/mid/base/clean/lower level) than an older operation on the same key. Distinct = distinct program hash.",
 		nil)
 }
@@ -56,4 +56,79 @@ func TestGenDeterminism(t *testing.T) {
 		p, _ := genHistory(rt, spec)
 		t.Logf("PROG %s", p.Hash())
 	})
+}
+
+var allBackings = []string{"mem", "store", "store", "ll"}
+
+func TestC02(t *testing.T) {
+	spec := &GenSpec{Prop: "C02", Backings: []string{"mem", "store", "store", "store", "ll"}, MaxOps: 40,
+		Holds: true, Snapshots: true, Iterators: true, StoreSnaps: true, BigBatches: true, CloseTail: true,
+		Children: exclChildren("C02"), Compaction: []int{0, 1, 2, 2}}
+	histCheck(t, spec, oraclesFor[spec.Prop],
+		"programs of C01 plus {take collection/child/store snapshot, open iterator with bounds, step/seek iterator, re-read snapshot, close handle, close collection, close store}; the reference of a handle is its first complete read; every later re-read (Get of every key, full iteration, children recursively) and every iterator step must match it. Non-trivial: a snapshot re-read after a later batch changed the collection AND at least one of {merger cycle, persister round, full compaction, Collection.Close, Store.Close} happened in between. Distinct = distinct program hash.",
+		nil)
+}
+
+func TestC10(t *testing.T) {
+	spec := &GenSpec{Prop: "C10", Backings: allBackings, MaxOps: 30, Holds: true, Reopen: true, Merge: true}
+	histCheck(t, spec, oraclesFor[spec.Prop],
+		"C01/C08 programs (Set, Del, Merge; empty key and values); after every op, for every key of the universe: Collection.Get, Get on a fresh Snapshot (each with and without NoCopyValue) and the entry/absence in a full iteration must agree (value and nil-ness); copied values are re-compared after everything is closed. Non-trivial: some key's newest operation sits in a different section than an older operation on it. Distinct = distinct program hash.",
+		nil)
+}
+
+func TestC08(t *testing.T) {
+	spec := &GenSpec{Prop: "C08", Backings: allBackings, MaxOps: 40, Holds: true, Reopen: true, Merge: true,
+		KeyPoolMax: 4, Children: exclChildren("C08"), Compaction: []int{0, 1, 1, 2}}
+	histCheck(t, spec, oraclesFor[spec.Prop],
+		"histories over 1-4 keys with Set/Del/Merge under an order- and structure-sensitive operator ('(' existing '|' operand ')'), with merger cycles, held persister rounds, partial/full compaction, reopen, CachePersisted, application lower level; every read (snapshot Get + iteration after every op, store / lower-level content after every completed round, content after reopen) must equal the model fold. Non-trivial: a Merge operation and an older operation on the same key sit in different sections at a read moment. Distinct = distinct program hash.",
+		func(h *Hist) bool { return h.Labels["merge-cross-section"] > 0 })
+}
+
+func TestC11(t *testing.T) {
+	spec := &GenSpec{Prop: "C11", Backings: []string{"mem", "store", "store", "store"}, MaxOps: 30, Holds: true, Reopen: true,
+		Children: true}
+	applyExclusions(spec)
+	histCheck(t, spec, oraclesFor[spec.Prop],
+		"histories over child names {A,B,C}, nesting <= 3: create by first mention (also with an empty child batch), write, delete, recreate, delete parent with grandchildren, child-only batches, same key at several levels; all controller steps, compaction concerns, reopen. After every op the collection (names as a set, nil snapshot for unknown names, full content of every child) equals the model tree; after every completed round the store does; after drain+reopen the reopened collection does. Non-trivial: a child is deleted or recreated while earlier data of it sits in another section or is already persisted, or a child-only batch is persisted as its own round. Distinct = distinct program hash.",
+		func(h *Hist) bool { return h.Labels["child-del-cross-section"]+h.Labels["child-only-round"] > 0 })
+}
+
+func TestC20(t *testing.T) {
+	spec := &GenSpec{Prop: "C20", Backings: []string{"store", "store", "ll"}, MaxOps: 30, Holds: true,
+		Children: true, NoRecreate: true}
+	applyExclusions(spec)
+	histCheck(t, spec, oraclesFor[spec.Prop],
+		"C01/C11 programs incl. child-only and delete-only batches, mossStore and application lower level, CachePersisted on/off; Stats() sampled after every op: whenever CurDirtyOps == CurDirtyBytes == CurDirtySegments == 0 the lower level's own snapshot must equal the full reference content (children included) and (up to 3 times per case) a copy of the directory must reopen to it; at the end, after <= 6 controller cycles without input, the gauges must be zero. Non-trivial: a zero sample with at least one batch executed since the previous zero sample. Distinct = distinct program hash.",
+		nil)
+}
+
+func TestC04(t *testing.T) {
+	spec := &GenSpec{Prop: "C04", Backings: []string{"store"}, MaxOps: 30, Holds: true, Reopen: true, EarlyClose: true,
+		Children: exclChildren("C04"), BigBatches: true, ReopenCfg: true}
+	applyExclusions(spec)
+	histCheck(t, spec, oraclesFor[spec.Prop],
+		"store-backed histories with 1-4 close/reopen cycles; close point generated: caught-up (controller runs merger cycles and rounds until every batch is covered by a completed round - event-confirmed) or early (batches still in top/mid/base, persister held at a gate); options may change on reopen. Caught-up: reopened collection == full reference. Early: reopened content == reference after some prefix p >= the prefix covered by the last completed round, never a mixture. Non-trivial: a reopen after >= 2 completed rounds, or an early close that really lost a suffix. Distinct = distinct program hash.",
+		func(h *Hist) bool {
+			return (h.Labels["reopen:caught-up"] > 0 && h.Rounds >= 2) || h.Labels["reopen:early-lost-suffix"] > 0
+		})
+}
+
+func TestC07(t *testing.T) {
+	spec := &GenSpec{Prop: "C07", Backings: []string{"store"}, MaxOps: 40, Holds: true, Reopen: true,
+		Children: exclChildren("C07"), BigBatches: true, Compaction: []int{1, 1, 2, 0}, KeepFiles: true}
+	applyExclusions(spec)
+	histCheck(t, spec, oraclesFor[spec.Prop],
+		"store-backed histories with overwrites, deletions, bulk batches spanning levels, all CompactionConcerns, small level parameters, CompactionPercentage extremes, 1-2 buffer pages, sync settings, idle-kind merger pings; after every op collection == reference and store == reference prefix (so content is identical before/after every compaction); after a full compaction (detected from Store.Stats deltas) iteration with IncludeDeletions shows no deletion marker, strictly ascending keys, and no entry above segment level 0 at any nesting level; after closing everything the directory holds one data file. Non-trivial: a compaction happened in the case. Distinct = distinct program hash.",
+		func(h *Hist) bool { return h.fullComp+h.partComp > 0 })
+}
+
+func TestC15(t *testing.T) {
+	spec := &GenSpec{Prop: "C15", Backings: []string{"store"}, MaxOps: 40, Holds: true, Snapshots: true, Iterators: true,
+		StoreSnaps: true, CloseTail: true, Children: exclChildren("C15"), Compaction: []int{0, 1, 2, 2}, KeepFiles: true}
+	applyExclusions(spec)
+	histCheck(t, spec, oraclesFor[spec.Prop],
+		"store-backed programs opening/closing collection snapshots, child snapshots, iterators, store snapshots at generated points relative to rounds, full compactions and Close calls, final close order generated; every open handle keeps returning its first-read content until closed (also after collection and store close); after the last close no /proc/self/fd entry and no /proc/self/maps line names the case directory and the directory holds one data file (polled; KeepFiles cases skip the directory clause). Non-trivial: a handle was re-read after a full compaction or a Close while the collection had changed. Distinct = distinct program hash.",
+		func(h *Hist) bool {
+			return h.Labels["reread-after:compaction"]+h.Labels["reread-after:coll-close"]+h.Labels["reread-after:store-close"] > 0
+		})
 }
